@@ -83,6 +83,7 @@ class FakeRedis:
         self.ncmds = 0
         self.keep_log = True
         self.double_takes: list = []
+        self.deleted_message_ids: list = []  # ids whose data hash was deleted (= acknowledged)
 
     def now(self) -> float:
         return time.time()
@@ -248,6 +249,8 @@ class FakeRedis:
     def c_DEL(self, *ks):
         n = 0
         for k in ks:
+            if k.startswith(b"m:"):
+                self.deleted_message_ids.append(k.decode().split(":")[-1])
             if self._live(k) is not None:
                 del self.d[k]
                 self.exp.pop(k, None)
